@@ -3,7 +3,7 @@ from common import LEAN_TB
 CHECK = {
     "title": "Nothing is written outside the designated roots",
     "modules": ["Apko.Proofs.C18", "Apko.Proofs.Lemmas.ConfinePath"],
-    "suites": [("confine", 2500, 60000)],
+    "suites": [("confine", 2500, 60000), ("confine-perm", 12, 120)],
     "fact_prefixes": ["rwosfs.go", "common.go", "cache.go", "implementation.go", "index.go", "const.go"],
     "hashes": {},
     "level": "proof",
